@@ -452,7 +452,8 @@ class HTMLSerializer(XHTMLSerializer):
         self.filters = [EmptyTagFilter()]
         if strip_whitespace:
             self.filters.append(WhitespaceFilter(self._PRESERVE_SPACE,
-                                                 self._NOESCAPE_ELEMS))
+                                                 self._NOESCAPE_ELEMS,
+                                                 cdata=False))
         self.filters.append(NamespaceFlattener(prefixes={
             'http://www.w3.org/1999/xhtml': ''
         }, cache=cache))
@@ -735,13 +736,16 @@ class WhitespaceFilter(object):
     stream.
     """
 
-    def __init__(self, preserve=None, noescape=None):
+    def __init__(self, preserve=None, noescape=None, cdata=True):
         """Initialize the filter.
         
         :param preserve: a set or sequence of tag names for which white-space
                          should be preserved
         :param noescape: a set or sequence of tag names for which text content
                          should not be escaped
+        :param cdata: whether the serializer writes the markers of ``CDATA``
+                      sections, so that the text inside them must not be
+                      escaped
         
         The `noescape` set is expected to refer to elements that cannot contain
         further child elements (such as ``<style>`` or ``<script>`` in HTML
@@ -753,6 +757,7 @@ class WhitespaceFilter(object):
         if noescape is None:
             noescape = []
         self.noescape = frozenset(noescape)
+        self.cdata = cdata
 
     def __call__(self, stream, ctxt=None, space=XML_NAMESPACE['space'],
                  trim_trailing_space=re.compile('[ \t]+(?=\n)').sub,
@@ -762,6 +767,8 @@ class WhitespaceFilter(object):
         preserve = 0
         noescape_elems = self.noescape
         noescape = False
+        cdata = self.cdata
+        in_cdata = False
 
         textbuf = []
         push_text = textbuf.append
@@ -769,7 +776,7 @@ class WhitespaceFilter(object):
         for kind, data, pos in chain(stream, [(None, None, None)]):
 
             if kind is TEXT:
-                if noescape:
+                if noescape or in_cdata:
                     data = Markup(data)
                 push_text(data)
             else:
@@ -797,10 +804,10 @@ class WhitespaceFilter(object):
                         preserve -= 1
 
                 elif kind is START_CDATA:
-                    noescape = True
+                    in_cdata = cdata
 
                 elif kind is END_CDATA:
-                    noescape = False
+                    in_cdata = False
 
                 if kind:
                     yield kind, data, pos
